@@ -19,7 +19,10 @@ Record MD (cfg : config) (x : option nat) (s : state) : Prop := mkMD {
   md_len : List.length (reqs s) = List.length (dials s);
   md_ck : forall r ck, get_req s r = Some (RCheckout ck) -> kin cfg ck /\ (forall d, get_dial s r = Some d -> gone_ok ck d);
   md_task : forall tid r t own, nth tid (tasks s) None = Some (TDelayed r t own) -> g_cont cfg = true /\ g_pool cfg = true /\ t <> 0;
-  md_bg : forall r d, x <> Some r -> get_dial s r = Some d -> ~ isck s r -> live_stage d -> polled_by s r d
+  md_bg : forall r d, x <> Some r -> get_dial s r = Some d -> ~ isck s r -> live_stage d -> polled_by s r d;
+  md_tl : List.length (toks s) = List.length (keys s);
+  md_ct : forall r ck, get_req s r = Some (RCheckout ck) -> k_token ck <= List.length (toks s);
+  md_tt : forall tid r t own, nth tid (tasks s) None = Some (TDelayed r t own) -> t <= List.length (toks s)
 }.
 
 Lemma nth_some_lt {A} (l : list (option A)) n x : nth n l None = Some x -> n < List.length l.
@@ -37,7 +40,9 @@ Record mdf (s s' : state) : Prop := mkMdf {
   mf_req : forall r, rel_req (get_req s r) (get_req s' r);
   mf_keep : forall tid r t own, nth tid (tasks s) None = Some (TDelayed r t own) -> nth tid (tasks s') None = Some (TDelayed r t own);
   mf_new : forall tid r t own, nth tid (tasks s') None = Some (TDelayed r t own) -> nth tid (tasks s) None = Some (TDelayed r t own);
-  mf_runq : forall tid, In tid (runq s) -> In tid (runq s')
+  mf_runq : forall tid, In tid (runq s) -> In tid (runq s');
+  mf_tl : List.length (toks s') = List.length (toks s);
+  mf_keys : keys s' = keys s
 }.
 
 Lemma rel_req_refl o : rel_req o o.
@@ -54,17 +59,24 @@ Proof.
   - destruct (get_req s r) as [[|ck0| | |]|]; cbn in H; eauto; rewrite H in Hc; discriminate.
 Qed.
 
+Lemma rel_req_back' s s' r ck : rel_req (get_req s r) (get_req s' r) -> get_req s' r = Some (RCheckout ck) ->
+  exists ck0, get_req s r = Some (RCheckout ck0) /\ k_inner ck = k_inner ck0 /\ k_token ck = k_token ck0.
+Proof.
+  intros Hr H. destruct (get_req s r) as [[|ck0| | |]|]; cbn in Hr; try (rewrite Hr in H; discriminate).
+  destruct Hr as (ck' & Hq & Hi & Ht). rewrite Hq in H. inversion H; subst ck'. eauto.
+Qed.
+
 Lemma mdf_refl s : mdf s s.
 Proof. constructor; auto. intros r. apply rel_req_refl. Qed.
 Lemma mdf_trans s1 s2 s3 : mdf s1 s2 -> mdf s2 s3 -> mdf s1 s3.
 Proof.
-  intros [A1 A2 A3 A4 A5 A6] [B1 B2 B3 B4 B5 B6]. constructor; try congruence; auto.
+  intros [A1 A2 A3 A4 A5 A6 A7 A8] [B1 B2 B3 B4 B5 B6 B7 B8]. constructor; try congruence; auto.
   intros r. eapply rel_req_trans; eauto.
 Qed.
 
 Lemma MD_mdf cfg x s s' : mdf s s' -> MD cfg x s -> MD cfg x s'.
 Proof.
-  intros [F1 F2 F3 F4 F5 F6] [M1 M2 M3 M4]. constructor.
+  intros [F1 F2 F3 F4 F5 F6 F7 F8] [M1 M2 M3 M4 M5 M6 M7]. constructor.
   - congruence.
   - intros r ck Hr. pose proof (F3 r) as Hrel. unfold get_dial. rewrite F1.
     destruct (get_req s r) as [[|ck0| | |]|] eqn:E; cbn in Hrel; try (rewrite Hrel in Hr; discriminate).
@@ -77,18 +89,27 @@ Proof.
     assert (Hn' : ~ isck s r) by (intros Hc; apply Hn; apply (rel_req_isck s s' r (F3 r)); exact Hc).
     destruct (M4 r d Hx Hd Hn' Hl) as (tid & t & own & Ht & Hq). exists tid, t, own. split; [apply F4; exact Ht|].
     destruct Hq as [Hq|Hq]; [left; apply F6; exact Hq|right; exact Hq].
+  - congruence.
+  - intros r ck Hr. rewrite F7. destruct (rel_req_back' s s' r ck (F3 r) Hr) as (ck0 & H0 & _ & Ht). rewrite Ht. eapply M6; eauto.
+  - intros tid r t own Ht. rewrite F7. eapply M7. eapply F5. exact Ht.
 Qed.
 
-Lemma mdf_frame s s' : reqs s' = reqs s -> dials s' = dials s -> tasks s' = tasks s -> runq s' = runq s -> mdf s s'.
+Lemma mdf_frame s s' : reqs s' = reqs s -> dials s' = dials s -> tasks s' = tasks s -> runq s' = runq s ->
+  toks s' = toks s -> keys s' = keys s -> mdf s s'.
 Proof.
-  intros H1 H2 H3 H4. constructor; try congruence.
+  intros H1 H2 H3 H4 H5 H6. constructor; try congruence.
   intros r. unfold get_req. rewrite H1. apply rel_req_refl.
 Qed.
 
 Ltac mfr := apply mdf_frame; reflexivity.
 Lemma mdf_emit e s : mdf s (emit e s). Proof. mfr. Qed.
 Lemma mdf_upd_conn c f s : mdf s (upd_conn c f s). Proof. mfr. Qed.
-Lemma mdf_upd_tok t f s : mdf s (upd_tok t f s). Proof. destruct t; mfr. Qed.
+Lemma mdf_upd_tok t f s : mdf s (upd_tok t f s).
+Proof.
+  destruct t; [mfr|]. constructor; try reflexivity; auto.
+  - intros r. apply rel_req_refl.
+  - cbn. apply upd_nth_len.
+Qed.
 Lemma mdf_wake_req r s : mdf s (wake_req r s). Proof. mfr. Qed.
 Lemma mdf_unwake_req r s : mdf s (unwake_req r s). Proof. mfr. Qed.
 Lemma mdf_clone_conn c s : mdf s (clone_conn c s). Proof. mfr. Qed.
@@ -218,15 +239,13 @@ Proof.
 Qed.
 Lemma mdf_rx_drop ck s : mdf s (snd (rx_drop ck s)).
 Proof. unfold rx_drop. destruct (k_waiter ck), (k_slot ck); cbn [snd]; try apply mdf_refl; apply mdf_pooled_drop. Qed.
-Lemma mdf_key_insert k s : mdf s (snd (key_insert k s)).
-Proof. unfold key_insert. destruct (find_key k (keys s) 1); cbn [snd]; [apply mdf_refl|mfr]. Qed.
 
 (* ------------------------------------------------------------------ requests *)
 Lemma isck_set_req_ne s w v r : w <> r -> (isck (set_req w v s) r <-> isck s r).
 Proof. intros H. unfold isck. rewrite get_req_set_req. destruct (Nat.eqb_spec w r); [contradiction|reflexivity]. Qed.
 
 Lemma MD_weaken cfg x s : MD cfg None s -> MD cfg x s.
-Proof. intros [M1 M2 M3 M4]. constructor; auto. intros r d _. apply M4. discriminate. Qed.
+Proof. intros [M1 M2 M3 M4 M5 M6 M7]. constructor; auto. intros r d _. apply M4. discriminate. Qed.
 
 Lemma polled_by_frame s s' r d : tasks s' = tasks s -> runq s' = runq s -> polled_by s r d -> polled_by s' r d.
 Proof. unfold polled_by. intros -> ->. auto. Qed.
@@ -234,21 +253,26 @@ Proof. unfold polled_by. intros -> ->. auto. Qed.
 (* the excepted request may be rewritten freely *)
 Lemma MD_set_req_x cfg r v s : MD cfg (Some r) s ->
   (forall ck, v = RCheckout ck -> kin cfg ck /\ (forall d, get_dial s r = Some d -> gone_ok ck d)) ->
+  (forall ck, v = RCheckout ck -> k_token ck <= List.length (toks s)) ->
   MD cfg (Some r) (set_req r v s).
 Proof.
-  intros [M1 M2 M3 M4] Hv. constructor.
+  intros [M1 M2 M3 M4 M5 M6 M7] Hv Hb. constructor.
   - cbn. rewrite upd_nth_len. exact M1.
   - intros r' ck. rewrite get_req_set_req. destruct (Nat.eqb_spec r r') as [<-|Hn]; [|apply M2].
     destruct (get_req s r); [|discriminate]. cbn. intros H. inversion H. apply Hv. assumption.
   - exact M3.
   - intros r' d Hx Hd Hn Hl. assert (Hne : r <> r') by congruence.
     apply (polled_by_frame s); try reflexivity. apply M4; auto. intros Hc. apply Hn. apply isck_set_req_ne; assumption.
+  - exact M5.
+  - intros r' ck. rewrite get_req_set_req. destruct (Nat.eqb_spec r r') as [<-|Hn]; [|apply M6].
+    destruct (get_req s r); [|discriminate]. cbn. intros H. inversion H. apply Hb. assumption.
+  - exact M7.
 Qed.
 
 Lemma MD_close cfg r s : MD cfg (Some r) s ->
   (forall d, get_dial s r = Some d -> ~ isck s r -> live_stage d -> polled_by s r d) -> MD cfg None s.
 Proof.
-  intros [M1 M2 M3 M4] H. constructor; auto. intros r' d _ Hd Hn Hl.
+  intros [M1 M2 M3 M4 M5 M6 M7] H. constructor; auto. intros r' d _ Hd Hn Hl.
   destruct (Nat.eq_dec r' r) as [->|Hne]; [apply H; auto|apply M4; auto; congruence].
 Qed.
 Lemma MD_close_ck cfg r s : MD cfg (Some r) s -> isck s r -> MD cfg None s.
@@ -258,7 +282,7 @@ Proof. intros H Hc. eapply MD_close; [exact H|]. intros d _ Hn. contradiction. Q
 Lemma MD_set_req_nock cfg x r q v s : get_req s r = Some q -> (forall ck, q <> RCheckout ck) -> (forall ck, v <> RCheckout ck) ->
   MD cfg x s -> MD cfg x (set_req r v s).
 Proof.
-  intros Hq Hnq Hnv [M1 M2 M3 M4]. constructor.
+  intros Hq Hnq Hnv [M1 M2 M3 M4 M5 M6 M7]. constructor.
   - cbn. rewrite upd_nth_len. exact M1.
   - intros r' ck. rewrite get_req_set_req. destruct (Nat.eqb_spec r r') as [<-|Hn]; [|apply M2].
     rewrite Hq. cbn. intros H. inversion H. exfalso. eapply Hnv; eauto.
@@ -267,6 +291,10 @@ Proof.
     intros [ck Hc]. destruct (Nat.eq_dec r r') as [<-|Hne].
     + rewrite Hq in Hc. inversion Hc. eapply Hnq; eauto.
     + apply Hn. apply isck_set_req_ne; [exact Hne|]. exists ck. exact Hc.
+  - exact M5.
+  - intros r' ck. rewrite get_req_set_req. destruct (Nat.eqb_spec r r') as [<-|Hn]; [|apply M6].
+    rewrite Hq. cbn. intros H. inversion H. exfalso. eapply Hnv; eauto.
+  - exact M7.
 Qed.
 
 (* ------------------------------------------------------------------ dials *)
@@ -279,7 +307,7 @@ Lemma MD_upd_dial cfg x r f s : MD cfg x s ->
      (live_stage d /\ (polled_by s r d -> polled_by s r (f d))) \/ polled_by s r (f d)) ->
   MD cfg x (upd_dial r f s).
 Proof.
-  intros [M1 M2 M3 M4] Hg Hb. constructor.
+  intros [M1 M2 M3 M4 M5 M6 M7] Hg Hb. constructor.
   - cbn. rewrite upd_nth_len. exact M1.
   - intros r' ck Hr. destruct (M2 r' ck Hr) as [K1 K2]. split; [exact K1|]. intros d'. rewrite get_dial_upd.
     destruct (Nat.eqb_spec r r') as [<-|Hn]; [|apply K2]. destruct (get_dial s r) as [d|] eqn:Ed; [|discriminate].
@@ -290,6 +318,9 @@ Proof.
       apply (polled_by_frame s); try reflexivity.
       destruct (Hb d eq_refl Hx Hc Hl) as [[Hl0 Hp]|Hp]; [|exact Hp]. apply Hp. apply M4; auto.
     + intros Hd Hc Hl. apply (polled_by_frame s); try reflexivity. apply M4; auto.
+  - exact M5.
+  - exact M6.
+  - exact M7.
 Qed.
 
 Lemma MD_dial_gone cfg x r s : MD cfg x s -> MD cfg x (upd_dial r (d_set_stage DGone) s).
@@ -301,9 +332,10 @@ Qed.
 
 (* ------------------------------------------------------------------ tasks *)
 Lemma MD_spawn_delayed cfg x r t own s : MD cfg x s -> g_cont cfg = true -> g_pool cfg = true -> t <> 0 ->
+  t <= List.length (toks s) ->
   MD cfg x (spawn (TDelayed r t own) s) /\ (forall d, polled_by (spawn (TDelayed r t own) s) r d).
 Proof.
-  intros [M1 M2 M3 M4] H1 H2 H3.
+  intros [M1 M2 M3 M4 M5 M6 M7] H1 H2 H3 H4.
   assert (Hnew : nth (List.length (tasks s)) (tasks s ++ [Some (TDelayed r t own)]) None = Some (TDelayed r t own))
     by (rewrite app_nth2, Nat.sub_diag by lia; reflexivity).
   split.
@@ -315,6 +347,10 @@ Proof.
     + intros r' d Hx Hd Hn Hl. destruct (M4 r' d Hx Hd Hn Hl) as (tid & t' & own' & Ht & Hq).
       exists tid, t', own'. split; [cbn; apply nth_app_some; exact Ht|].
       destruct Hq as [Hq|Hq]; [left; cbn; apply in_or_app; left; exact Hq|right; exact Hq].
+    + intros tid r' t' own' H. cbn in H. destruct (Nat.lt_ge_cases tid (List.length (tasks s))) as [Hl|Hg].
+      * rewrite app_nth1 in H by exact Hl. eapply M7; eauto.
+      * rewrite app_nth2 in H by exact Hg. destruct (tid - List.length (tasks s)) as [|[|k]]; cbn in H; try discriminate.
+        inversion H; subst. exact H4.
   - intros d. exists (List.length (tasks s)), t, own. split; [exact Hnew|]. left. cbn. apply in_or_app. right. left. reflexivity.
 Qed.
 
@@ -327,11 +363,12 @@ Qed.
 Lemma MD_finish_delayed cfg rid tid t own s : MD cfg (Some rid) s -> nth tid (tasks s) None = Some (TDelayed rid t own) ->
   MD cfg (Some rid) (finish_task tid s).
 Proof.
-  intros [M1 M2 M3 M4] Ht. constructor; auto.
+  intros [M1 M2 M3 M4 M5 M6 M7] Ht. constructor; auto.
   - intros n r t0 own0 H. cbn in H. rewrite nth_upd_none in H. destruct (Nat.eqb tid n); [discriminate|]. eapply M3; eauto.
   - intros r d Hx Hd Hn Hl. destruct (M4 r d Hx Hd Hn Hl) as (n & t' & own' & Hn' & Hq).
     exists n, t', own'. split; [|exact Hq]. cbn. rewrite nth_upd_none.
     destruct (Nat.eqb_spec tid n) as [->|]; [|exact Hn']. rewrite Ht in Hn'. inversion Hn'; subst. contradiction Hx. reflexivity.
+  - intros n r t0 own0 H. cbn in H. rewrite nth_upd_none in H. destruct (Nat.eqb tid n); [discriminate|]. eapply M7; eauto.
 Qed.
 
 (* ------------------------------------------------------------------ the connector *)
@@ -399,9 +436,9 @@ Lemma not_live_gone d : d_stage d = DGone -> ~ live_stage d.
 Proof. intros E [Hl|[y Hl]]; rewrite E in Hl; discriminate. Qed.
 
 Lemma MD_checkout_drop cfg rid ck s : MD cfg (Some rid) s -> kin cfg ck -> (forall d, get_dial s rid = Some d -> gone_ok ck d) ->
-  ~ isck s rid -> MD cfg None (checkout_drop cfg rid ck s).
+  ~ isck s rid -> k_token ck <= List.length (toks s) -> MD cfg None (checkout_drop cfg rid ck s).
 Proof.
-  intros H (K1 & K2 & K3) Hg Hn. unfold checkout_drop.
+  intros H (K1 & K2 & K3) Hg Hn Hb. unfold checkout_drop.
   set (s1 := match k_conn ck with
              | Some c => if is_open s c && (g_pool cfg && negb (k_token ck =? 0)) then pool_push (g_max_idle cfg) (k_token ck) c s else drop_conn c s
              | None => s end).
@@ -419,7 +456,8 @@ Proof.
   { subst s2. destruct delayed eqn:Ed.
     - assert (Ei : k_inner ck = IDelayDrop) by (subst delayed; destruct (k_inner ck); try discriminate; reflexivity).
       destruct (K3 Ei) as (G1 & G2 & G3).
-      destruct (MD_spawn_delayed cfg (Some rid) rid (k_token ck) (k_owner ck) s1 H1 G1 G2 G3) as [A B].
+      assert (Hb1 : k_token ck <= List.length (toks s1)) by (rewrite (mf_tl _ _ F1); exact Hb).
+      destruct (MD_spawn_delayed cfg (Some rid) rid (k_token ck) (k_owner ck) s1 H1 G1 G2 G3 Hb1) as [A B].
       split; [exact A|split; [exact Hd1|split; [exact Hn1|intros _; exact B]]].
     - assert (F2 : mdf s1 (if g_pool cfg && negb (k_token ck =? 0) && k_owner ck then pool_cancel (k_token ck) rid s1 else s1))
         by (destruct (g_pool cfg && negb (k_token ck =? 0) && k_owner ck); [apply mdf_pool_cancel|apply mdf_refl]).
@@ -461,74 +499,79 @@ Proof. unfold kin. cbn. repeat split; intros; discriminate. Qed.
 Definition ckp_post cfg (rid : nat) (s : state) (rs : kpoll * checkout * state) : Prop :=
   MD cfg (Some rid) (snd rs) /\ kin cfg (snd (fst rs))
   /\ (forall d, get_dial (snd rs) rid = Some d -> gone_ok (snd (fst rs)) d)
-  /\ List.length (reqs (snd rs)) = List.length (reqs s).
+  /\ List.length (reqs (snd rs)) = List.length (reqs s)
+  /\ k_token (snd (fst rs)) <= List.length (toks (snd rs)).
 
 Lemma MD_checkout_poll cfg rid ck s : MD cfg (Some rid) s -> kin cfg ck -> (forall d, get_dial s rid = Some d -> gone_ok ck d) ->
-  ckp_post cfg rid s (checkout_poll cfg rid ck s).
+  k_token ck <= List.length (toks s) -> ckp_post cfg rid s (checkout_poll cfg rid ck s).
 Proof.
-  intros H Hk Hg. unfold checkout_poll, ckp_post.
+  intros H Hk Hg Hb. unfold checkout_poll, ckp_post.
   destruct (waiter_poll_same ck) as (W1 & W2 & W3 & W4). destruct (waiter_poll ck) as [w ck1]. cbn [snd] in W1, W2, W3, W4.
   assert (Hk1 : kin cfg ck1) by (eapply kin_same; eauto).
   assert (Hg1 : forall d, get_dial s rid = Some d -> gone_ok ck1 d) by (intros d Hd; eapply gone_ok_same; eauto).
-  destruct w; cbn [fst snd]; auto.
-  destruct (k_inner ck1) eqn:Ei; cbn [fst snd]; auto.
+  assert (Hb1 : k_token ck1 <= List.length (toks s)) by (rewrite W2; exact Hb).
+  assert (Hbase : MD cfg (Some rid) s /\ kin cfg ck1 /\ (forall d, get_dial s rid = Some d -> gone_ok ck1 d)
+                  /\ List.length (reqs s) = List.length (reqs s) /\ k_token ck1 <= List.length (toks s)) by auto.
+  destruct w; cbn [fst snd]; try exact Hbase.
+  (* the connector branch, shared by the three inner states that own a connector *)
+  assert (Hconn : k_inner ck1 <> IWaiting -> k_inner ck1 <> IConnected ->
+    let rs := let '(r, s0) := connector_poll rid ByReq s in
+              match r with
+              | CPending => (KPending, ck1, s0)
+              | CReady res =>
+                  let '(ck0, s1) := rx_drop ck1 s0 in
+                  let ck2 := k_set_inner IConnected ck0 in
+                  let s2 := set_req rid (RCheckout ck2) s1 in
+                  match res with
+                  | inl c => let '(p, s3) := register cfg (k_token ck2) c s2 in (KReady (inl p), ck2, s3)
+                  | inr e => (KReady (inr e), ck2, s2)
+                  end
+              end in
+    MD cfg (Some rid) (snd rs) /\ kin cfg (snd (fst rs)) /\ (forall d, get_dial (snd rs) rid = Some d -> gone_ok (snd (fst rs)) d)
+    /\ List.length (reqs (snd rs)) = List.length (reqs s) /\ k_token (snd (fst rs)) <= List.length (toks (snd rs))).
+  { intros Hn1 Hn2. cbv zeta.
+    destruct (MD_connector_poll cfg rid ByReq s H) as [H1 (P1 & P2 & P3 & P4 & P5)].
+    pose proof (toks_connector_poll rid ByReq s) as T1.
+    destruct (connector_poll rid ByReq s) as [r s1]. cbn [fst snd] in *.
+    destruct r as [|res]; cbn [fst snd].
+    { split; [exact H1|]. split; [exact Hk1|]. split; [|split; [rewrite P5; reflexivity|rewrite T1; exact Hb1]].
+      intros d _ [E|E]; contradiction. }
+    destruct (rx_drop_same ck1 s1) as (R1 & R2 & _). pose proof (mdf_rx_drop ck1 s1) as F2.
+    destruct (rx_drop ck1 s1) as [ck2 s2]. cbn [fst snd] in R1, R2, F2.
+    assert (Hb2 : k_token (k_set_inner IConnected ck2) <= List.length (toks s2)) by (cbn; rewrite R2, (mf_tl _ _ F2), T1; exact Hb1).
+    assert (Hg2 : forall d, get_dial s2 rid = Some d -> gone_ok (k_set_inner IConnected ck2) d).
+    { intros d Hd _. rewrite (mdf_get_dial _ _ rid F2) in Hd. eapply P2; eauto. }
+    assert (H2 : MD cfg (Some rid) (set_req rid (RCheckout (k_set_inner IConnected ck2)) s2)).
+    { apply MD_set_req_x; [eapply MD_mdf; eauto| |].
+      - intros ck' E. inversion E; subst ck'. split; [apply kin_connected|exact Hg2].
+      - intros ck' E. inversion E; subst ck'. exact Hb2. }
+    assert (Hl2 : List.length (reqs (set_req rid (RCheckout (k_set_inner IConnected ck2)) s2)) = List.length (reqs s))
+      by (cbn; rewrite upd_nth_len, (mf_rlen _ _ F2), P5; reflexivity).
+    destruct res as [c|e]; cbn [fst snd].
+    - pose proof (mdf_register cfg (k_token (k_set_inner IConnected ck2)) c (set_req rid (RCheckout (k_set_inner IConnected ck2)) s2)) as F3.
+      destruct (register _ _ _ _) as [p s3]. cbn [fst snd] in *.
+      split; [eapply MD_mdf; eauto|]. split; [apply kin_connected|]. split; [|split].
+      + intros d Hd. rewrite (mdf_get_dial _ _ rid F3) in Hd. apply Hg2. exact Hd.
+      + rewrite (mf_rlen _ _ F3). exact Hl2.
+      + rewrite (mf_tl _ _ F3). exact Hb2.
+    - split; [exact H2|]. split; [apply kin_connected|]. split; [exact Hg2|]. split; [exact Hl2|exact Hb2]. }
+  destruct (k_inner ck1) eqn:Ei; cbn [fst snd]; try exact Hbase; try (apply Hconn; discriminate).
   - (* IConnected *)
-    destruct (k_conn ck1) as [c|]; cbn [fst snd]; auto.
+    destruct (k_conn ck1) as [c|]; cbn [fst snd]; [|exact Hbase].
     destruct (rx_drop_same (k_set_conn None ck1) s) as (R1 & R2 & _). pose proof (mdf_rx_drop (k_set_conn None ck1) s) as F2.
     destruct (rx_drop (k_set_conn None ck1) s) as [ck2 s2]. cbn [fst snd] in R1, R2, F2.
     assert (Hk2 : kin cfg ck2) by (eapply kin_same; [exact R1|exact R2|]; eapply kin_same; [| |exact Hk1]; reflexivity).
+    assert (Hb2 : k_token ck2 <= List.length (toks s2)) by (rewrite R2, (mf_tl _ _ F2); exact Hb1).
     assert (Hg2 : forall d, get_dial s2 rid = Some d -> gone_ok ck2 d).
     { intros d Hd. rewrite (mdf_get_dial _ _ rid F2) in Hd. eapply gone_ok_same; [exact R1|]. eapply gone_ok_same; [|apply Hg1; exact Hd]. reflexivity. }
     assert (H2 : MD cfg (Some rid) (set_req rid (RCheckout ck2) s2)).
-    { apply MD_set_req_x; [eapply MD_mdf; eauto|]. intros ck' E. inversion E; subst ck'. auto. }
+    { apply MD_set_req_x; [eapply MD_mdf; eauto| |]; intros ck' E; inversion E; subst ck'; auto. }
     pose proof (mdf_register cfg (k_token ck2) c (set_req rid (RCheckout ck2) s2)) as F3.
     destruct (register cfg (k_token ck2) c (set_req rid (RCheckout ck2) s2)) as [p s3]. cbn [fst snd] in *.
-    split; [eapply MD_mdf; eauto|]. split; [exact Hk2|]. split.
+    split; [eapply MD_mdf; eauto|]. split; [exact Hk2|]. split; [|split].
     + intros d Hd. rewrite (mdf_get_dial _ _ rid F3) in Hd. apply Hg2. exact Hd.
     + rewrite (mf_rlen _ _ F3). cbn. rewrite upd_nth_len. apply (mf_rlen _ _ F2).
-  - (* IConnecting *)
-    destruct (MD_connector_poll cfg rid ByReq s H) as [H1 (P1 & P2 & P3 & P4 & P5)].
-    destruct (connector_poll rid ByReq s) as [r s1]. cbn [fst snd] in *.
-    destruct r as [|res]; cbn [fst snd].
-    { split; [exact H1|]. split; [exact Hk1|]. split; [|rewrite P5; reflexivity].
-      intros d _ [E|E]; rewrite Ei in E; discriminate. }
-    destruct (rx_drop_same ck1 s1) as (R1 & R2 & _). pose proof (mdf_rx_drop ck1 s1) as F2.
-    destruct (rx_drop ck1 s1) as [ck2 s2]. cbn [fst snd] in R1, R2, F2.
-    assert (Hg2 : forall d, get_dial s2 rid = Some d -> gone_ok (k_set_inner IConnected ck2) d).
-    { intros d Hd _. rewrite (mdf_get_dial _ _ rid F2) in Hd. eapply P2; eauto. }
-    assert (H2 : MD cfg (Some rid) (set_req rid (RCheckout (k_set_inner IConnected ck2)) s2)).
-    { apply MD_set_req_x; [eapply MD_mdf; eauto|]. intros ck' E. inversion E; subst ck'. split; [apply kin_connected|exact Hg2]. }
-    assert (Hl2 : List.length (reqs (set_req rid (RCheckout (k_set_inner IConnected ck2)) s2)) = List.length (reqs s))
-      by (cbn; rewrite upd_nth_len, (mf_rlen _ _ F2), P5; reflexivity).
-    destruct res as [c|e]; cbn [fst snd].
-    + pose proof (mdf_register cfg (k_token (k_set_inner IConnected ck2)) c (set_req rid (RCheckout (k_set_inner IConnected ck2)) s2)) as F3.
-      destruct (register _ _ _ _) as [p s3]. cbn [fst snd] in *.
-      split; [eapply MD_mdf; eauto|]. split; [apply kin_connected|]. split.
-      * intros d Hd. rewrite (mdf_get_dial _ _ rid F3) in Hd. apply Hg2. exact Hd.
-      * rewrite (mf_rlen _ _ F3). exact Hl2.
-    + split; [exact H2|]. split; [apply kin_connected|]. split; [exact Hg2|exact Hl2].
-  - (* IDelayDrop *)
-    destruct (MD_connector_poll cfg rid ByReq s H) as [H1 (P1 & P2 & P3 & P4 & P5)].
-    destruct (connector_poll rid ByReq s) as [r s1]. cbn [fst snd] in *.
-    destruct r as [|res]; cbn [fst snd].
-    { split; [exact H1|]. split; [exact Hk1|]. split; [|rewrite P5; reflexivity].
-      intros d _ [E|E]; rewrite Ei in E; discriminate. }
-    destruct (rx_drop_same ck1 s1) as (R1 & R2 & _). pose proof (mdf_rx_drop ck1 s1) as F2.
-    destruct (rx_drop ck1 s1) as [ck2 s2]. cbn [fst snd] in R1, R2, F2.
-    assert (Hg2 : forall d, get_dial s2 rid = Some d -> gone_ok (k_set_inner IConnected ck2) d).
-    { intros d Hd _. rewrite (mdf_get_dial _ _ rid F2) in Hd. eapply P2; eauto. }
-    assert (H2 : MD cfg (Some rid) (set_req rid (RCheckout (k_set_inner IConnected ck2)) s2)).
-    { apply MD_set_req_x; [eapply MD_mdf; eauto|]. intros ck' E. inversion E; subst ck'. split; [apply kin_connected|exact Hg2]. }
-    assert (Hl2 : List.length (reqs (set_req rid (RCheckout (k_set_inner IConnected ck2)) s2)) = List.length (reqs s))
-      by (cbn; rewrite upd_nth_len, (mf_rlen _ _ F2), P5; reflexivity).
-    destruct res as [c|e]; cbn [fst snd].
-    + pose proof (mdf_register cfg (k_token (k_set_inner IConnected ck2)) c (set_req rid (RCheckout (k_set_inner IConnected ck2)) s2)) as F3.
-      destruct (register _ _ _ _) as [p s3]. cbn [fst snd] in *.
-      split; [eapply MD_mdf; eauto|]. split; [apply kin_connected|]. split.
-      * intros d Hd. rewrite (mdf_get_dial _ _ rid F3) in Hd. apply Hg2. exact Hd.
-      * rewrite (mf_rlen _ _ F3). exact Hl2.
-    + split; [exact H2|]. split; [apply kin_connected|]. split; [exact Hg2|exact Hl2].
-  - (* IDelayed *) exfalso. destruct Hk1 as (K & _). apply K. exact Ei.
+    + rewrite (mf_tl _ _ F3). exact Hb2.
 Qed.
 
 (* ------------------------------------------------------------------ operations *)
@@ -553,20 +596,22 @@ Proof.
   - (* RCheckout *)
     destruct (md_ck _ _ _ H r ck Er) as [Hk Hg].
     assert (H0 : MD cfg (Some r) (unwake_req r s)) by (eapply MD_mdf; [apply mdf_unwake_req|apply MD_weaken; exact H]).
-    destruct (MD_checkout_poll cfg r ck (unwake_req r s) H0 Hk Hg) as (H1 & Hk1 & Hg1 & Hl1).
+    assert (Hb : k_token ck <= List.length (toks (unwake_req r s))) by (apply (md_ct _ _ _ H r ck Er)).
+    destruct (MD_checkout_poll cfg r ck (unwake_req r s) H0 Hk Hg Hb) as (H1 & Hk1 & Hg1 & Hl1 & Hb1).
     destruct (checkout_poll cfg r ck (unwake_req r s)) as [[res ck1] s1]. cbn [fst snd] in *.
     assert (Hin : r < List.length (reqs s1)) by (rewrite Hl1; cbn; eapply nth_error_lt; exact Er).
     destruct (get_req_len s1 r Hin) as [q1 Eq1].
     destruct res as [|[p|e]].
-    + eapply MD_mdf; [apply mdf_emit|]. eapply MD_close_ck; [apply MD_set_req_x; [exact H1|]|].
+    + eapply MD_mdf; [apply mdf_emit|]. eapply MD_close_ck; [apply MD_set_req_x; [exact H1| |]|].
       * intros ck' E. inversion E; subst ck'. auto.
+      * intros ck' E. inversion E; subst ck'. exact Hb1.
       * exists ck1. eapply isck_set_req_same; eauto.
     + destruct (match get_conn s1 (fst p) with Some cn => _ | None => _ end) as [[[sh op_] rd] hs].
       eapply MD_mdf; [apply mdf_emit|]. apply MD_checkout_drop; auto.
-      * apply MD_set_req_x; [|discriminate]. eapply MD_mdf; [|exact H1]. eapply mdf_trans; [apply mdf_emit|apply mdf_upd_conn].
+      * apply MD_set_req_x; [|discriminate|discriminate]. eapply MD_mdf; [|exact H1]. eapply mdf_trans; [apply mdf_emit|apply mdf_upd_conn].
       * intros [ck' Hc]. erewrite isck_set_req_same in Hc; [discriminate|]. exact Eq1.
     + eapply MD_mdf; [apply mdf_emit|]. apply MD_checkout_drop; auto.
-      * apply MD_set_req_x; [exact H1|discriminate].
+      * apply MD_set_req_x; [exact H1|discriminate|discriminate].
       * intros [ck' Hc]. erewrite isck_set_req_same in Hc; [discriminate|]. exact Eq1.
   - (* RHolding *)
     destruct fin.
@@ -582,8 +627,9 @@ Proof.
   - eapply MD_mdf; [apply mdf_unwake_req|]. eapply (MD_set_req_nock cfg None r); [exact Er|discriminate|discriminate|exact H].
   - destruct (md_ck _ _ _ H r ck Er) as [Hk Hg].
     eapply MD_mdf; [apply mdf_unwake_req|]. apply MD_checkout_drop; auto.
-    + apply MD_set_req_x; [apply MD_weaken; exact H|discriminate].
+    + apply MD_set_req_x; [apply MD_weaken; exact H|discriminate|discriminate].
     + intros [ck' Hc]. erewrite isck_set_req_same in Hc; [discriminate|]. exact Er.
+    + apply (md_ct _ _ _ H r ck Er).
   - eapply MD_mdf; [eapply mdf_trans; [apply mdf_hold_release|apply mdf_unwake_req]|].
     eapply (MD_set_req_nock cfg None r); [exact Er|discriminate|discriminate|exact H].
   - eapply MD_mdf; [apply mdf_unwake_req|exact H].
@@ -622,9 +668,10 @@ Definition add_req (q : req) (d : dial) (s : state) : state := set_dials (dials 
 
 Lemma MD_add cfg q d s : MD cfg None s ->
   (forall ck, q = RCheckout ck -> kin cfg ck /\ gone_ok ck d) ->
-  ((forall ck, q <> RCheckout ck) -> ~ live_stage d) -> MD cfg None (add_req q d s).
+  ((forall ck, q <> RCheckout ck) -> ~ live_stage d) ->
+  (forall ck, q = RCheckout ck -> k_token ck <= List.length (toks s)) -> MD cfg None (add_req q d s).
 Proof.
-  intros [M1 M2 M3 M4] Hq Hd. unfold add_req. constructor.
+  intros [M1 M2 M3 M4 M5 M6 M7] Hq Hd Hb. unfold add_req. constructor.
   - cbn. rewrite !app_length. cbn. lia.
   - intros r ck. unfold get_req, get_dial. cbn [reqs dials set_dials set_reqs]. rewrite !nth_error_snoc, <- M1.
     destruct (Nat.ltb_spec r (List.length (reqs s))) as [Hl|Hg]; [apply M2|].
@@ -637,6 +684,11 @@ Proof.
       exists tid, t, own. split; [exact Ht|exact Hqq].
     + destruct (Nat.eqb r (List.length (reqs s))); [|discriminate]. intros E Hn Hl'. inversion E; subst d'.
       exfalso. apply Hd; [|exact Hl']. intros ck ->. apply Hn. eauto.
+  - exact M5.
+  - intros r ck. unfold get_req. cbn [reqs toks set_dials set_reqs]. rewrite nth_error_snoc.
+    destruct (Nat.ltb_spec r (List.length (reqs s))) as [Hl|Hg]; [apply M6|].
+    destruct (Nat.eqb r (List.length (reqs s))); [|discriminate]. intros E. inversion E; subst q. apply Hb. reflexivity.
+  - exact M7.
 Qed.
 
 Lemma kin_new cfg t w i c own txd : i <> IDelayed -> (i = IConnecting -> contp cfg = false) ->
@@ -654,37 +706,63 @@ Proof.
   eapply find_key_ge; eauto.
 Qed.
 
+Lemma find_key_le k : forall ks i t, find_key k ks i = Some t -> t < i + List.length ks.
+Proof.
+  induction ks as [|k0 l IH]; intros i t E; cbn in E; [discriminate|].
+  destruct (key_eqb k k0); [inversion E; cbn; lia|]. apply IH in E. cbn. lia.
+Qed.
+
+Lemma MD_key_insert cfg k s : MD cfg None s ->
+  MD cfg None (snd (key_insert k s)) /\ fst (key_insert k s) <= List.length (toks (snd (key_insert k s))).
+Proof.
+  intros H. pose proof H as [M1 M2 M3 M4 M5 M6 M7]. unfold key_insert. destruct (find_key k (keys s) 1) as [t|] eqn:E; cbn [fst snd].
+  - split; [exact H|]. apply find_key_le in E. lia.
+  - split; [|cbn; rewrite app_length; cbn; lia]. constructor; auto.
+    + cbn. rewrite !app_length. cbn. lia.
+    + intros r ck Hr. cbn. rewrite app_length. specialize (M6 r ck Hr). lia.
+    + intros tid r t own Ht. cbn. rewrite app_length. specialize (M7 tid r t own Ht). lia.
+Qed.
+
 Lemma MD_do_issue cfg u p s : MD cfg None s -> MD cfg None (do_issue cfg u p s).
 Proof.
   intros H. unfold do_issue.
   assert (H0 : MD cfg None (set_woken (woken s ++ [false]) s)) by (apply (MD_mdf cfg None s); [apply mdf_frame; reflexivity|exact H]).
   destruct (nth u (g_uris cfg) None) as [k|].
-  2: { apply (MD_add cfg RError _ _ H0); [discriminate|]. intros _. apply not_live_gone. reflexivity. }
+  2: { apply (MD_add cfg RError _ _ H0); [discriminate| |discriminate]. intros _. apply not_live_gone. reflexivity. }
   destruct (g_pool cfg) eqn:Ep; cbn [negb].
   2: { apply (MD_add cfg _ _ _ H0).
        - intros ck E. inversion E; subst ck. split.
          + apply kin_new; [discriminate| |discriminate]. intros _. unfold contp. rewrite Ep. apply andb_false_r.
          + intros [E'|E']; discriminate.
-       - intros Hn. exfalso. eapply Hn. reflexivity. }
-  pose proof (mdf_key_insert k (set_woken (woken s ++ [false]) s)) as F1. pose proof (key_insert_pos k (set_woken (woken s ++ [false]) s)) as Ht.
-  destruct (key_insert k (set_woken (woken s ++ [false]) s)) as [t s1]. cbn [fst snd] in F1, Ht.
+       - intros Hn. exfalso. eapply Hn. reflexivity.
+       - intros ck E. inversion E; subst ck. cbn. lia. }
+  destruct (MD_key_insert cfg k (set_woken (woken s ++ [false]) s) H0) as [H1 Ht1].
+  pose proof (key_insert_pos k (set_woken (woken s ++ [false]) s)) as Ht.
+  destruct (key_insert k (set_woken (woken s ++ [false]) s)) as [t s1]. cbn [fst snd] in H1, Ht1, Ht.
   pose proof (mdf_pool_pop (g_timeout cfg) t s1) as F2.
   destruct (pool_pop (g_timeout cfg) t s1) as [found s2]. cbn [snd] in F2.
-  assert (H2 : MD cfg None s2) by (eapply MD_mdf; [exact F2|]; eapply MD_mdf; [exact F1|exact H0]).
+  assert (H2 : MD cfg None s2) by (eapply MD_mdf; [exact F2|exact H1]).
+  assert (Ht2 : t <= List.length (toks s2)) by (rewrite (mf_tl _ _ F2); exact Ht1).
   destruct found as [c|].
   { apply (MD_add cfg _ _ _ H2).
     - intros ck E. inversion E; subst ck. split; [apply kin_new; discriminate|]. intros _. reflexivity.
-    - intros Hn. exfalso. eapply Hn. reflexivity. }
+    - intros Hn. exfalso. eapply Hn. reflexivity.
+    - intros ck E. inversion E; subst ck. exact Ht2. }
   set (pend := match p_marker (get_tok s2 t) with Some _ => true | None => false end).
   set (s3 := upd_tok t (fun q => set_waiting (p_waiting q ++ [(List.length (reqs s), pend)]) q) s2).
-  assert (H3 : MD cfg None s3) by (eapply MD_mdf; [apply mdf_upd_tok|exact H2]).
+  assert (F3 : mdf s2 s3) by apply mdf_upd_tok.
+  assert (H3 : MD cfg None s3) by (eapply MD_mdf; [exact F3|exact H2]).
+  assert (Ht3 : t <= List.length (toks s3)) by (rewrite (mf_tl _ _ F3); exact Ht2).
   destruct pend.
   { apply (MD_add cfg _ _ _ H3).
     - intros ck E. inversion E; subst ck. split; [apply kin_new; discriminate|]. intros _. reflexivity.
-    - intros Hn. exfalso. eapply Hn. reflexivity. }
+    - intros Hn. exfalso. eapply Hn. reflexivity.
+    - intros ck E. inversion E; subst ck. exact Ht3. }
   set (own := match p with H2 => true | H1 => false end).
   set (s4 := if own then upd_tok t (set_marker (Some (List.length (reqs s)))) s3 else s3).
-  assert (H4 : MD cfg None s4) by (subst s4; destruct own; [eapply MD_mdf; [apply mdf_upd_tok|exact H3]|exact H3]).
+  assert (F4 : mdf s3 s4) by (subst s4; destruct own; [apply mdf_upd_tok|apply mdf_refl]).
+  assert (H4 : MD cfg None s4) by (eapply MD_mdf; [exact F4|exact H3]).
+  assert (Ht4 : t <= List.length (toks s4)) by (rewrite (mf_tl _ _ F4); exact Ht3).
   apply (MD_add cfg _ _ _ H4).
   - intros ck E. inversion E; subst ck. split.
     + destruct (g_cont cfg) eqn:Ec; apply kin_new; try discriminate.
@@ -692,13 +770,14 @@ Proof.
       * intros _. unfold contp. rewrite Ec. reflexivity.
     + intros [E'|E']; cbn in E'; destruct (g_cont cfg); discriminate.
   - intros Hn. exfalso. eapply Hn. reflexivity.
+  - intros ck E. inversion E; subst ck. exact Ht4.
 Qed.
 
 (* ------------------------------------------------------------------ background tasks *)
 Lemma MD_set_runq cfg x tid rest s : MD cfg None s -> runq s = tid :: rest ->
   (forall r t own, nth tid (tasks s) None = Some (TDelayed r t own) -> x = Some r) -> MD cfg x (set_runq rest s).
 Proof.
-  intros [M1 M2 M3 M4] Hq Hx. constructor; auto.
+  intros [M1 M2 M3 M4 M5 M6 M7] Hq Hx. constructor; auto.
   intros r d Hne Hd Hn Hl. destruct (M4 r d) as (n & t & own & Hn' & Hw); auto; [discriminate|].
   exists n, t, own. split; [exact Hn'|]. destruct Hw as [Hw|Hw]; [|right; exact Hw]. left. cbn.
   rewrite Hq in Hw. destruct Hw as [Hw|Hw]; [|exact Hw]. subst n. exfalso. apply Hne. eapply Hx. exact Hn'.
@@ -782,4 +861,6 @@ Proof.
   - intros r ck H. destruct r; discriminate.
   - intros tid r t own H. destruct tid; discriminate.
   - intros r d _ H. destruct r; discriminate.
+  - intros r ck H. destruct r; discriminate.
+  - intros tid r t own H. destruct tid; discriminate.
 Qed.
